@@ -210,6 +210,8 @@ static void run_case(Tape &t)
 		crafted_nonce = true;
 	}
 	size_t al = draw_len(t), ml = draw_len(t);
+	// CCM encodes the AAD length in 2 bytes below 0xFF00, in 6 bytes (FF FE + 32 bits) from there on
+	if (mode == 1 && t.u8() % 64 == 0) al = t.pick<size_t>({ 0xFEFF, 0xFF00, 0xFF01, 0xFFFF, 0x10000, 0x10001 });
 	Bytes aad = t.filled(al), msg = t.filled(ml);
 	std::vector<size_t> asp = split(t, al), msp = split(t, ml);
 	unsigned shortcut = mode == 2 ? t.u8() % 3 : 0;      // EAX: 0 plain, 1 pre-AAD state, 2 post-AAD state
